@@ -408,7 +408,7 @@ impl Scenario for Cancel {
     fn engine(&self) -> &'static str {
         "T"
     }
-    fn generate(&self, rng: &mut Rng, _tier: Tier) -> CancelParams {
+    fn generate(&self, rng: &mut Rng, tier: Tier) -> CancelParams {
         let kind = *rng.pick(&[
             Kind::UniMoveAtomic,
             Kind::UniMoveFullSync,
@@ -423,8 +423,10 @@ impl Scenario for Cancel {
             Kind::MultiMmapLog,
         ]);
         // a run on the log channel creates, maps and removes a file (10-50 x the cost of any other run, and very dependent on
-        // the machine): two thirds of them are drawn again, so that they do not dominate the batch
-        let kind = if kind == Kind::MultiMmapLog && !rng.chance(1, 3) {
+        // the machine): most of them are drawn again, so that they do not dominate the batch (quick tier: 1 in 20 kept, i.e. about
+        // one run in 200 is on the log channel; thorough tier: 1 in 3 kept)
+        let keep = if tier == Tier::Quick { rng.chance(1, 20) } else { rng.chance(1, 3) };
+        let kind = if kind == Kind::MultiMmapLog && !keep {
             *rng.pick(&[Kind::UniMoveAtomic, Kind::UniMoveFullSync, Kind::UniMoveCrossbeam, Kind::UniZcAtomic, Kind::UniZcFullSync, Kind::MultiArcAtomic, Kind::MultiArcFullSync, Kind::MultiArcCrossbeam, Kind::MultiOgreAtomic, Kind::MultiOgreFullSync])
         } else {
             kind
